@@ -331,6 +331,53 @@ def check_render(s, st):
     return "render-ok", None
 
 
+PREPROCESSORS = {
+    "lengthen": lambda t: t + "\n" + t,
+    "prefix": lambda t: "zz" + t,
+    "shrink": lambda t: t[: (len(t) + 1) // 2],
+    "two": [lambda t: t + "q", lambda t: t + t],
+}
+
+
+def _dump(nodes, parsetree):
+    out = []
+    for nd in nodes:
+        item = [type(nd).__name__, nd.lineno, nd.pos]
+        for a in ("content", "text", "keyword", "isend", "ismodule"):
+            if hasattr(nd, a):
+                item.append(getattr(nd, a))
+        if isinstance(nd, parsetree.Tag):
+            item.append(_dump(nd.nodes, parsetree))
+        out.append(item)
+    return out
+
+
+def check_preprocess(s, st):
+    """a preprocessor rewrites the text before lexing: the tree must be the tree of the rewritten text"""
+    from mako import exceptions, parsetree
+    from mako.lexer import Lexer
+
+    for name, pp in PREPROCESSORS.items():
+        t = s
+        for f in pp if isinstance(pp, list) else [pp]:
+            t = f(t)
+
+        def lex(text, **kw):
+            try:
+                return ("ok", _dump(Lexer(text, **kw).parse().nodes, parsetree))
+            except (exceptions.SyntaxException, exceptions.CompileException) as e:
+                return ("exc", type(e).__name__, e.lineno, e.pos)
+            except BaseException as e:  # noqa
+                return ("other", type(e).__name__)
+
+        st.oracles["preprocess"] += 1
+        a = lex(s, preprocessor=pp)
+        b = lex(t)
+        if a != b:
+            return ("preprocess", "lexing with a preprocessor differs from lexing the preprocessed text", {"preprocessor": name, "with_preprocessor": a, "preprocessed_text": b})
+    return None
+
+
 def drop_signature(s, info):
     # footprint of a dropped character: the character and what follows it
     off = info["offset"]
@@ -350,7 +397,8 @@ def check_string(s, st, kind):
     if v is None and out == "ok" or (v is None and out.startswith("exc")):
         rout, rv = check_render(s, st)
     st.outcomes[(out, rout)] += 1
-    for vv in (v, rv):
+    pv = check_preprocess(s, st) if len(s) <= 12 else None
+    for vv in (v, rv, pv):
         if vv is None:
             continue
         oracle, msg, detail = vv
@@ -358,6 +406,8 @@ def check_string(s, st, kind):
             sig = drop_signature(s, detail)
         elif oracle == "render":
             sig = "render:" + _render_sig(s, detail)
+        elif oracle == "preprocess":
+            sig = "preprocess:" + detail["preprocessor"]
         else:
             sig = oracle + ":" + msg
         st.violation(sig, {"kind": kind, "text": s}, oracle + ": " + msg, observed=detail)
@@ -520,7 +570,7 @@ def check_unit_doc(src, st):
 # --------------------------------------------------------------------------
 # (c) time bound: repetition families, each size lexed in a child with a wall limit
 
-REP_PREFIX = ["", "<%a", "${", "<%", "% if x:", "<%text>", '"', "<%def name="]
+REP_PREFIX = ["", "<%a", "${", "<%", "% if x:", "<%text>", '"', "<%def name=", '${"', "${'", '${"""', '<% "', "<% '", '<%def name="', "${x | "]  # the last seven: inside a string literal / filter list
 REP_SUFFIX = ["", ">", "}", "%>", "\n"]
 REP_TOKENS = ["<%", "%>", "</%", "${", "}", "%", "##", "\\", "\n", "\r\n", '"', "'", "|", ">", "/", "<", "#",
               "$", " ", "\t", "a", "=", ",", "x", " x", "(", "[", "{"]
@@ -581,6 +631,7 @@ def check_family_batch(fams, rep_max, st, limit=20):
         sizes.append(n)
         n *= 2
     remaining = list(fams)
+    timeouts = 0
     code = _CHILD % {"repo": os.path.abspath(core.REPO), "limit": limit}
     while remaining:
         payload = json.dumps([[p, w, s, sizes] for (p, w, s) in remaining])
@@ -601,6 +652,12 @@ def check_family_batch(fams, rep_max, st, limit=20):
             assert [p, w, s] == last_start[:3], (remaining[ndone], last_start)
             _judge_family(p, w, s, [(last_start[3], "timeout", float(limit))], st, limit)
             remaining = remaining[ndone + 1 :]
+            timeouts += 1
+            if timeouts >= 8:
+                # every further blow-up costs `limit` seconds; the violation is already established
+                st.exhaustive = False
+                st.caps.append("time families: stopped after %d timeouts, %d families of this shard not run" % (timeouts, len(remaining)))
+                break
         else:
             st.extra.setdefault("harness_errors", []).append("time child died: rc=%s err=%s" % (pr.returncode, pr.stderr[-500:]))
             break
